@@ -22,7 +22,7 @@ RULE = ("hyp: entry point (the 4 SequenceParameters show_/save_ phase/Uversky me
         "axis limits and label texts as requested; getFig=True returns a non-None object exposing the figure; a save writes a non-empty "
         "file; the marker lies in the closed polygon (1e-9) whose index equals get_phasePlotRegion(); linear plots have exactly N bars, bar "
         "k centred at position k+1 with the height of get_linear_*(w)[1][k]. homopolymers: every residue type as a chain of 1..45 (thorough 120) residues (extreme coordinates) through the show entry points. Non-trivial: a label, non-default limits or title, an extreme coordinate (homopolymer), or >=2 "
-        "sequences (region part: every triple); distinct by the whole case.")
+        "sequences (region part: every triple); distinct by the whole case. A fifth of the diagram cases draw on a figure that an earlier show_*(getFig=True) of another sequence left open (the library draws on the current pyplot figure): there the requested title (often the empty one) and limits must be in force and this call's markers and labels present among the accumulated ones.")
 ASSUMPTIONS = ["figure checks inspect matplotlib artists (scatter offsets, annotation texts, polygon vertices, bar rectangles), not pixels",
                "the written file's format, legend and font size are not part of the statement and are not asserted",
                "region polygons are identified by drawing order (region 1..5), which is also the legend order"]
@@ -194,7 +194,7 @@ def check_diagram(ctx, case):
     n = len(objs)
     nt = bool(case.get("labels")) or n >= 2 or any(k in case for k in ("title", "xLim", "yLim", "extreme"))
     ctx.count(case, nontrivial=nt, classes=["entry:%s-%s-%s" % (case["how"], case["entry"], case["kind"]), "n=%d" % n] +
-              (["getFig"] if case.get("getFig") else []) + (["labels"] if case.get("labels") else []))
+              (["getFig"] if case.get("getFig") else []) + (["labels"] if case.get("labels") else []) + (["on-open-figure"] if case.get("after_show") else []))
     path = os.path.join(tmpdir(), "fig.%s" % case.get("saveFormat", "png"))
     if os.path.exists(path):
         os.remove(path)
@@ -219,6 +219,28 @@ def check_diagram(ctx, case):
             pass
         ok, snap, res = capture_keep(call, getfig)
         what += " after save_%s(%s)" % (pre["which"], pre["fmt"])
+    elif case.get("after_show"):
+        # an earlier show_*(getFig=True) of ANOTHER sequence whose figure the caller left open (notebook use): the library draws on the
+        # current pyplot figure, so earlier markers and annotations stay - the requested title and limits, and this call's markers, must be there
+        ps = case["after_show"]
+        other = util.sp(ps["seq"])
+        import matplotlib.pyplot as plt
+        plt.close("all")
+        osh = plt.show
+        plt.show = lambda *a, **k: None
+        try:
+            if ps["which"] == "phase":
+                other.show_phaseDiagramPlot(title=ps["title"], getFig=True)
+            elif ps["which"] == "uversky":
+                other.show_uverskyPlot(title=ps["title"], getFig=True)
+            else:
+                other.show_linearNCPR(5, getFig=True)
+        except Exception:   # noqa
+            pass
+        finally:
+            plt.show = osh
+        ok, snap, res = capture_keep(call, getfig)
+        what += " on the figure left open by show_%s(title=%r, getFig=True)" % (ps["which"], ps["title"])
     else:
         ok, snap, res = capture(call, getfig)
     if getfig:
@@ -227,8 +249,12 @@ def check_diagram(ctx, case):
     # markers
     got = sorted(snap["markers"])
     want = sorted((float(x), float(y)) for x, y in points)
-    ctx.check(len(got) == len(want) and all(ref.close(a[0], b[0]) and ref.close(a[1], b[1]) for a, b in zip(got, want)), "marker-position",
-              "%s: markers at %r, sequences are at %r" % (what, got, want), case)
+    if case.get("after_show"):
+        ctx.check(all(any(ref.close(a[0], b[0]) and ref.close(a[1], b[1]) for a in got) for b in want), "marker-position",
+                  "%s: markers at %r, sequences are at %r" % (what, got, want), case)
+    else:
+        ctx.check(len(got) == len(want) and all(ref.close(a[0], b[0]) and ref.close(a[1], b[1]) for a, b in zip(got, want)), "marker-position",
+                  "%s: markers at %r, sequences are at %r" % (what, got, want), case)
     # title, limits
     title = case.get("title", "Diagram of states" if case["kind"] == "phase" else "Uversky plot")
     ctx.check(snap["title"] == title, "title", "%s: title %r, requested %r" % (what, snap["title"], title), case)
@@ -238,14 +264,18 @@ def check_diagram(ctx, case):
     # labels
     labels = [l for l in (case.get("labels") or []) if l != ""]
     texts = [t for t in snap["texts"] if t != ""]
-    ctx.check(texts == labels, "labels", "%s: annotation texts %r, requested labels %r" % (what, texts, labels), case)
+    if case.get("after_show"):
+        ctx.check(all(l in texts for l in labels), "labels", "%s: annotation texts %r, requested labels %r" % (what, texts, labels), case)
+    else:
+        ctx.check(texts == labels, "labels", "%s: annotation texts %r, requested labels %r" % (what, texts, labels), case)
     # file
     if case["how"] == "save":
         ctx.check(os.path.exists(path) and os.path.getsize(path) > 0, "file", "%s did not write %s" % (what, path), case)
     # region agreement for the plotted markers
     if case["kind"] == "phase":
         for o, (x, y) in zip(objs, points):
-            check_in_region(ctx, case, snap["polygons"], float(x), float(y), o.get_phasePlotRegion(), what)
+            # on a figure left open the earlier call's patches are still there: this call's five regions are the last five polygons
+            check_in_region(ctx, case, snap["polygons"][-5:] if case.get("after_show") else snap["polygons"], float(x), float(y), o.get_phasePlotRegion(), what)
 
 
 # ---------------------------------------------------------------------------------------------------------------- linear plots
@@ -346,6 +376,11 @@ def hyp_case(draw):
     if draw(st.integers(0, 3)) == 0:
         case["after_save"] = {"seq": draw(gens.sequences(max_len=30, min_len=6)), "fmt": draw(st.sampled_from(["svg", "svg", "pdf", "png"])),
                               "which": draw(st.sampled_from(["phase", "uversky", "linear"]))}
+    elif draw(st.integers(0, 3)) == 0:
+        case["after_show"] = {"seq": draw(gens.sequences(max_len=30, min_len=6)), "which": draw(st.sampled_from(["phase", "uversky", "linear"])),
+                              "title": draw(st.sampled_from(["Earlier", "Sequence A", "x"]))}
+        if draw(st.booleans()):
+            case["title"] = draw(st.sampled_from(["", "", " ", "New"]))
     if draw(st.integers(0, 7)) == 0 and n == 1:
         case["seqs"] = [draw(st.sampled_from(["K", "R", "KR", "D", "E"])) * draw(st.integers(5, 30))]     # a corner of the diagram
     return case
